@@ -136,4 +136,196 @@ theorem coord_err_float32 (a b ell t : Float32) (A S M : ℚ)
   exact reproject_chain _ _ _ _ _ _ _ _ _ δ1 δ2 δ6 _ _ A S M (two_zpow_pos _).le (two_zpow_pos _).le hpos
     hd h1 hr h2 (mul_err_abs_float32 _ _ fd fr fw) (mul_err_abs_float32 _ _ fw ft fv) he h6 hA hS hM
 
+/-! ### the two regimes of one coordinate -/
+
+/-- **cut regime, one coordinate**: coordinates bounded by `2¹⁹` (decoded paths), `0 < ℓ ≤ 2²¹`, parameter
+`ρ = τ/ℓ ∈ [0, 1 + κ]`, `κ ≤ 2⁻²⁰`. The coordinate is within `11 · 2⁻²⁴ · 2¹⁹ + 2⁻²⁰` (`< 0.34376` px) of
+`a + ρ (b − a)`: one half-ulp of `|a| ≤ 2¹⁹` plus five half-ulps of the travelled `ρ|b − a| ≤ 2²⁰ + 1`. -/
+theorem cut_coord_err (a b ell t : Float32) (κ : ℚ)
+    (hfin : (coordReproject a b ell t).isFinite = true) (hell : ell.isFinite = true)
+    (ha : |toRat32 a| ≤ 524288) (hb : |toRat32 b| ≤ 524288)
+    (hpos : 0 < toRat32 ell) (hle : toRat32 ell ≤ 2097152)
+    (ht0 : 0 ≤ toRat32 t) (ht1 : toRat32 t ≤ toRat32 ell * (1 + κ)) (hκ0 : 0 ≤ κ) (hκ : κ ≤ 1 / 1048576) :
+    (0 ≤ toRat32 t / toRat32 ell ∧ toRat32 t / toRat32 ell ≤ 1 + κ) ∧
+    |toRat32 (coordReproject a b ell t) - (toRat32 a + toRat32 t / toRat32 ell * (toRat32 b - toRat32 a))| ≤
+      11 * (2 : ℚ) ^ (-24 : Int) * 524288 + (2 : ℚ) ^ (-20 : Int) := by
+  have hρ0 : 0 ≤ toRat32 t / toRat32 ell := div_nonneg ht0 hpos.le
+  have hρ1 : toRat32 t / toRat32 ell ≤ 1 + κ := by rw [div_le_iff₀ hpos]; linarith
+  refine ⟨⟨hρ0, hρ1⟩, ?_⟩
+  have hba : |toRat32 b - toRat32 a| ≤ 1048576 := by
+    have := abs_sub (toRat32 b) (toRat32 a); linarith
+  have e1 : toRat32 t * ((toRat32 b - toRat32 a) / toRat32 ell) =
+      toRat32 t / toRat32 ell * (toRat32 b - toRat32 a) := by field_simp
+  have hS : |toRat32 t * ((toRat32 b - toRat32 a) / toRat32 ell)| ≤ 1048577 := by
+    rw [e1, abs_mul, abs_of_nonneg hρ0]
+    calc toRat32 t / toRat32 ell * |toRat32 b - toRat32 a| ≤ (1 + 1 / 1048576) * 1048576 :=
+          mul_le_mul (by linarith) hba (abs_nonneg _) (by norm_num)
+      _ = 1048577 := by norm_num
+  have hM : |toRat32 t| ≤ 4194304 := by
+    rw [abs_of_nonneg ht0]
+    calc toRat32 t ≤ toRat32 ell * (1 + κ) := ht1
+      _ ≤ 2097152 * (1 + 1 / 1048576) := mul_le_mul hle (by linarith) (by linarith) (by norm_num)
+      _ ≤ 4194304 := by norm_num
+  have := coord_err_float32 a b ell t 524288 1048577 4194304 hfin hell hpos
+    (le_trans hle (by norm_num)) ha hS hM
+  rw [e1] at this
+  refine le_trans this ?_
+  norm_num
+
+/-- **extension regime, one coordinate**: the parameter `τ` is any `f32` with `|τ| ≤ 2⁴⁰`; the error is one half-ulp of
+`|a| ≤ 2¹⁹` plus (a little more than) five half-ulps *of the travelled coordinate distance* `|ρ (b − a)|` — a relative
+bound, necessarily: the extension can be arbitrarily long. -/
+theorem ext_coord_err (a b ell t : Float32)
+    (hfin : (coordReproject a b ell t).isFinite = true) (hell : ell.isFinite = true)
+    (ha : |toRat32 a| ≤ 524288) (hpos : 0 < toRat32 ell) (hle : toRat32 ell ≤ (2 : ℚ) ^ (126 : Int))
+    (hM : |toRat32 t| ≤ (2 : ℚ) ^ (40 : Int)) :
+    |toRat32 (coordReproject a b ell t) - (toRat32 a + toRat32 t / toRat32 ell * (toRat32 b - toRat32 a))| ≤
+      (2 : ℚ) ^ (-5 : Int) +
+        (5 * (2 : ℚ) ^ (-24 : Int) + (2 : ℚ) ^ (-44 : Int)) * |toRat32 t / toRat32 ell * (toRat32 b - toRat32 a)| +
+        (2 : ℚ) ^ (-100 : Int) := by
+  have e1 : toRat32 t * ((toRat32 b - toRat32 a) / toRat32 ell) =
+      toRat32 t / toRat32 ell * (toRat32 b - toRat32 a) := by field_simp
+  have := coord_err_float32 a b ell t 524288 _ _ hfin hell hpos hle ha (le_refl _) hM
+  rw [e1] at this
+  refine le_trans this ?_
+  have c : ((1 + (2 : ℚ) ^ (-24 : Int)) ^ 5 - 1) ≤ 5 * (2 : ℚ) ^ (-24 : Int) + (2 : ℚ) ^ (-44 : Int) := by norm_num
+  have := mul_le_mul_of_nonneg_right c (abs_nonneg (toRat32 t / toRat32 ell * (toRat32 b - toRat32 a)))
+  have c2 : (2 : ℚ) ^ (-150 : Int) * ((2 : ℚ) ^ (40 : Int) * (1 + (2 : ℚ) ^ (-24 : Int)) + 1) *
+      (1 + (2 : ℚ) ^ (-24 : Int)) ≤ (2 : ℚ) ^ (-100 : Int) := by norm_num
+  have c3 : (2 : ℚ) ^ (-24 : Int) * 524288 = (2 : ℚ) ^ (-5 : Int) := by norm_num
+  linarith
+
+/-! ### the end point -/
+
+/-- the re-projection of `calculate_length`: `p_k + (p_{k+1} − p_k).normalize() * t`. -/
+def reproject (pp pe : Pos Float32) (t : Float32) : Pos Float32 :=
+  pp + (Pos.normalize Float (pe - pp)).smul t
+
+theorem reproject_x (pp pe : Pos Float32) (t : Float32) :
+    (reproject pp pe t).x = coordReproject pp.x pe.x (Pos.length Float (pe - pp)) t := rfl
+
+theorem reproject_y (pp pe : Pos Float32) (t : Float32) :
+    (reproject pp pe t).y = coordReproject pp.y pe.y (Pos.length Float (pe - pp)) t := rfl
+
+/-- **the adjusted end point of `calculate_length` is this re-projection** with `t = (L − len_k) as f32`
+(`cut_shape`, Props/C16.lean, shows that `cutPoint` is the last point of the adjusted path; `k + 1 = cutIdx`). -/
+theorem cutPoint_eq_reproject (opt : Float) (path : List (Pos Float32)) (L : Float) :
+    cutPoint opt path L =
+      reproject (path.getD (cutIdx opt path L - 1) Pos.zero) (path.getD (cutIdx opt path L) Pos.zero)
+        (Cvt.down (L - (natLens opt path).dropLast.getD (cutIdx opt path L - 1) 0)) := rfl
+
+/-- bounded coordinates: `|x|, |y| ≤ 2¹⁹` (what the decoder guarantees for path points, `MAX_COORDINATE_VALUE = 131072`
+and the curve approximations stay in the hull). -/
+def Bounded19 (p : Pos Float32) : Prop := |toRat32 p.x| ≤ 524288 ∧ |toRat32 p.y| ≤ 524288
+
+/-- the bound of the cut regime: `11 · 2⁻²⁴ · 2¹⁹ + 2⁻²⁰ = 11/32 + 2⁻²⁰` px. -/
+def cutBound : ℚ := 11 * (2 : ℚ) ^ (-24 : Int) * 524288 + (2 : ℚ) ^ (-20 : Int)
+
+theorem cutBound_lt : cutBound < 0.34376 := by unfold cutBound; norm_num
+
+/-- **C16 on IEEE floats, cut regime (1).** Segment `k` with end points `pp = p_k`, `pe = p_{k+1}` bounded by `2¹⁹`,
+`ell` = the `f32` length the code computes for it (finite, `0 < ℓ ≤ 2²¹`; nothing else is assumed about it: `sqrt` is not
+needed), `t` = the `f32` parameter the code uses, `0 ≤ τ ≤ ℓ(1 + κ)`, `κ ≤ 2⁻²⁰`; the result has finite coordinates.
+Then with `ρ = τ/ℓ ∈ [0, 1 + κ]` both coordinates of the new end point are within `11/32 + 2⁻²⁰` px of the point
+`p_k + ρ (p_{k+1} − p_k)` of the line through the segment. -/
+theorem cut_end_point_err_float32 (pp pe : Pos Float32) (t : Float32) (κ : ℚ)
+    (hfx : (reproject pp pe t).x.isFinite = true) (hfy : (reproject pp pe t).y.isFinite = true)
+    (hell : (Pos.length Float (pe - pp)).isFinite = true)
+    (hpp : Bounded19 pp) (hpe : Bounded19 pe)
+    (hpos : 0 < toRat32 (Pos.length Float (pe - pp))) (hle : toRat32 (Pos.length Float (pe - pp)) ≤ 2097152)
+    (ht0 : 0 ≤ toRat32 t) (ht1 : toRat32 t ≤ toRat32 (Pos.length Float (pe - pp)) * (1 + κ))
+    (hκ0 : 0 ≤ κ) (hκ : κ ≤ 1 / 1048576) :
+    (0 ≤ toRat32 t / toRat32 (Pos.length Float (pe - pp)) ∧
+      toRat32 t / toRat32 (Pos.length Float (pe - pp)) ≤ 1 + κ) ∧
+    |toRat32 (reproject pp pe t).x - (toRat32 pp.x +
+        toRat32 t / toRat32 (Pos.length Float (pe - pp)) * (toRat32 pe.x - toRat32 pp.x))| ≤ cutBound ∧
+    |toRat32 (reproject pp pe t).y - (toRat32 pp.y +
+        toRat32 t / toRat32 (Pos.length Float (pe - pp)) * (toRat32 pe.y - toRat32 pp.y))| ≤ cutBound := by
+  rw [reproject_x] at hfx ⊢
+  rw [reproject_y] at hfy ⊢
+  obtain ⟨hr, hx⟩ := cut_coord_err _ _ _ t κ hfx hell hpp.1 hpe.1 hpos hle ht0 ht1 hκ0 hκ
+  obtain ⟨_, hy⟩ := cut_coord_err _ _ _ t κ hfy hell hpp.2 hpe.2 hpos hle ht0 ht1 hκ0 hκ
+  exact ⟨hr, hx, hy⟩
+
+/-- **(3), cut regime, in the wording of the property**: if the parameter overshoots the segment by at most `κ ≤ 2⁻²³`
+(relative; see `cut_param_range_float`), the new end point is within `1/2` px, in each coordinate, of a point
+`p_k + ρ' (p_{k+1} − p_k)`, `ρ' ∈ [0, 1]`, **of the segment** (so within `√2/2` px of the segment). -/
+theorem cut_end_point_near_segment (pp pe : Pos Float32) (t : Float32) (κ : ℚ)
+    (hfx : (reproject pp pe t).x.isFinite = true) (hfy : (reproject pp pe t).y.isFinite = true)
+    (hell : (Pos.length Float (pe - pp)).isFinite = true)
+    (hpp : Bounded19 pp) (hpe : Bounded19 pe)
+    (hpos : 0 < toRat32 (Pos.length Float (pe - pp))) (hle : toRat32 (Pos.length Float (pe - pp)) ≤ 2097152)
+    (ht0 : 0 ≤ toRat32 t) (ht1 : toRat32 t ≤ toRat32 (Pos.length Float (pe - pp)) * (1 + κ))
+    (hκ0 : 0 ≤ κ) (hκ : κ ≤ 1 / 8388608) :
+    ∃ ρ' : ℚ, 0 ≤ ρ' ∧ ρ' ≤ 1 ∧
+      |toRat32 (reproject pp pe t).x - (toRat32 pp.x + ρ' * (toRat32 pe.x - toRat32 pp.x))| ≤ 1 / 2 ∧
+      |toRat32 (reproject pp pe t).y - (toRat32 pp.y + ρ' * (toRat32 pe.y - toRat32 pp.y))| ≤ 1 / 2 := by
+  obtain ⟨⟨h0, h1⟩, hx, hy⟩ := cut_end_point_err_float32 pp pe t κ hfx hfy hell hpp hpe hpos hle ht0 ht1 hκ0
+    (le_trans hκ (by norm_num))
+  generalize toRat32 t / toRat32 (Pos.length Float (pe - pp)) = ρ at *
+  have hcb : cutBound + 1 / 8388608 * 1048576 ≤ 1 / 2 := by unfold cutBound; norm_num
+  have key : ∀ a b e : ℚ, |a| ≤ 524288 → |b| ≤ 524288 → |e - (a + ρ * (b - a))| ≤ cutBound →
+      |e - (a + min ρ 1 * (b - a))| ≤ 1 / 2 := by
+    intro a b e ha hb he
+    have hba : |b - a| ≤ 1048576 := by have := abs_sub b a; linarith
+    have hm : |ρ - min ρ 1| ≤ 1 / 8388608 := by
+      rcases le_total ρ 1 with h | h
+      · rw [min_eq_left h, sub_self, abs_zero]; norm_num
+      · rw [min_eq_right h, abs_of_nonneg (by linarith)]; linarith
+    have e2 : e - (a + min ρ 1 * (b - a)) = (e - (a + ρ * (b - a))) + (ρ - min ρ 1) * (b - a) := by ring
+    rw [e2]
+    have : |(ρ - min ρ 1) * (b - a)| ≤ 1 / 8388608 * 1048576 := by
+      rw [abs_mul]; exact mul_le_mul hm hba (abs_nonneg _) (by norm_num)
+    linarith [abs_add_le (e - (a + ρ * (b - a))) ((ρ - min ρ 1) * (b - a))]
+  exact ⟨min ρ 1, le_min h0 (by norm_num), min_le_right _ _, key _ _ _ hpp.1 hpe.1 hx, key _ _ _ hpp.2 hpe.2 hy⟩
+
+/-- **C16 on IEEE floats, extension regime (2)**: `L` beyond the natural length, the last segment is extended in its
+own direction. `t` is any `f32` parameter with `0 ≤ τ ≤ 2⁴⁰`; with `ρ = τ/ℓ ≥ 0` the new end point is, per coordinate,
+within `2⁻⁵ + (5·2⁻²⁴ + 2⁻⁴⁴)·|ρ (b − a)| + 2⁻¹⁰⁰` of the point `p_k + ρ (p_{k+1} − p_k)` **of the ray** from `p_k`
+through `p_{k+1}` — half an ulp of the start coordinate plus five half-ulps of the coordinate distance travelled. -/
+theorem ext_end_point_err_float32 (pp pe : Pos Float32) (t : Float32)
+    (hfx : (reproject pp pe t).x.isFinite = true) (hfy : (reproject pp pe t).y.isFinite = true)
+    (hell : (Pos.length Float (pe - pp)).isFinite = true)
+    (hpp : Bounded19 pp)
+    (hpos : 0 < toRat32 (Pos.length Float (pe - pp)))
+    (hle : toRat32 (Pos.length Float (pe - pp)) ≤ (2 : ℚ) ^ (126 : Int))
+    (ht0 : 0 ≤ toRat32 t) (hM : toRat32 t ≤ (2 : ℚ) ^ (40 : Int)) :
+    0 ≤ toRat32 t / toRat32 (Pos.length Float (pe - pp)) ∧
+    |toRat32 (reproject pp pe t).x - (toRat32 pp.x +
+        toRat32 t / toRat32 (Pos.length Float (pe - pp)) * (toRat32 pe.x - toRat32 pp.x))| ≤
+      (2 : ℚ) ^ (-5 : Int) + (5 * (2 : ℚ) ^ (-24 : Int) + (2 : ℚ) ^ (-44 : Int)) *
+        |toRat32 t / toRat32 (Pos.length Float (pe - pp)) * (toRat32 pe.x - toRat32 pp.x)| + (2 : ℚ) ^ (-100 : Int) ∧
+    |toRat32 (reproject pp pe t).y - (toRat32 pp.y +
+        toRat32 t / toRat32 (Pos.length Float (pe - pp)) * (toRat32 pe.y - toRat32 pp.y))| ≤
+      (2 : ℚ) ^ (-5 : Int) + (5 * (2 : ℚ) ^ (-24 : Int) + (2 : ℚ) ^ (-44 : Int)) *
+        |toRat32 t / toRat32 (Pos.length Float (pe - pp)) * (toRat32 pe.y - toRat32 pp.y)| + (2 : ℚ) ^ (-100 : Int) := by
+  rw [reproject_x] at hfx ⊢
+  rw [reproject_y] at hfy ⊢
+  have hM' : |toRat32 t| ≤ (2 : ℚ) ^ (40 : Int) := by rw [abs_of_nonneg ht0]; exact hM
+  exact ⟨div_nonneg ht0 hpos.le, ext_coord_err _ _ _ t hfx hell hpp.1 hpos hle hM',
+    ext_coord_err _ _ _ t hfy hell hpp.2 hpos hle hM'⟩
+
+/-- **(3), extension regime with an explicit `D`**: if the extension travels at most `2²¹` px along each axis
+(`ρ|Δx|, ρ|Δy| ≤ 2²¹`: e.g. both end points of the extended curve are bounded by `2²⁰`), the new end point is within
+`11/16` px, per coordinate, of a point of the ray. -/
+theorem ext_end_point_near_ray (pp pe : Pos Float32) (t : Float32)
+    (hfx : (reproject pp pe t).x.isFinite = true) (hfy : (reproject pp pe t).y.isFinite = true)
+    (hell : (Pos.length Float (pe - pp)).isFinite = true)
+    (hpp : Bounded19 pp)
+    (hpos : 0 < toRat32 (Pos.length Float (pe - pp)))
+    (hle : toRat32 (Pos.length Float (pe - pp)) ≤ (2 : ℚ) ^ (126 : Int))
+    (ht0 : 0 ≤ toRat32 t) (hM : toRat32 t ≤ (2 : ℚ) ^ (40 : Int))
+    (hSx : |toRat32 t / toRat32 (Pos.length Float (pe - pp)) * (toRat32 pe.x - toRat32 pp.x)| ≤ 2097152)
+    (hSy : |toRat32 t / toRat32 (Pos.length Float (pe - pp)) * (toRat32 pe.y - toRat32 pp.y)| ≤ 2097152) :
+    ∃ ρ : ℚ, 0 ≤ ρ ∧
+      |toRat32 (reproject pp pe t).x - (toRat32 pp.x + ρ * (toRat32 pe.x - toRat32 pp.x))| ≤ 11 / 16 ∧
+      |toRat32 (reproject pp pe t).y - (toRat32 pp.y + ρ * (toRat32 pe.y - toRat32 pp.y))| ≤ 11 / 16 := by
+  obtain ⟨h0, hx, hy⟩ := ext_end_point_err_float32 pp pe t hfx hfy hell hpp hpos hle ht0 hM
+  have c : (0 : ℚ) ≤ 5 * (2 : ℚ) ^ (-24 : Int) + (2 : ℚ) ^ (-44 : Int) := by norm_num
+  have cx := mul_le_mul_of_nonneg_left hSx c
+  have cy := mul_le_mul_of_nonneg_left hSy c
+  have n : (2 : ℚ) ^ (-5 : Int) + (5 * (2 : ℚ) ^ (-24 : Int) + (2 : ℚ) ^ (-44 : Int)) * 2097152 +
+      (2 : ℚ) ^ (-100 : Int) ≤ 11 / 16 := by norm_num
+  exact ⟨_, h0, by linarith, by linarith⟩
+
 end Rosu.C16
